@@ -417,7 +417,7 @@ func runC18Case(tier string, seed uint64, idx int, keepDir string) *CaseResult {
 	// editing a file that is never read changes nothing, so the run must equal the run without overrides. Mostly with the
 	// classic parameter format, where file names carry no extension (PARAM.WR is then a prefix of PARAM.WRA / PARAM.WRC).
 	unused := ""
-	if !reject && r.Bool(0.12) {
+	if !reject && r.Bool(0.12) && !cultivar { // (the project-supplied cultivar file exists as YAML only)
 		classic := r.Bool(0.7)
 		usedFiles := map[string]bool{}
 		for _, e := range sc.Rotation {
